@@ -502,7 +502,8 @@ class WalletKey(object):
         self.session.close()
 
     def __repr__(self):
-        return "<WalletKey(key_id=%d, name=%s, wif=%s, path=%s)>" % (self.key_id, self.name, self.wif, self.path)
+        wif = self.wif if not self.is_private else '<private>'
+        return "<WalletKey(key_id=%d, name=%s, wif=%s, path=%s)>" % (self.key_id, self.name, wif, self.path)
 
     @property
     def name(self):
